@@ -139,9 +139,9 @@ class C20(Prop):
     def gen(self, rng, tier):
         g = c07mod.C07()
         vids = SLAVE_PREFIX_IDS if rng.random() < 0.4 else None
-        full = g.gen(rng, tier, vids=vids)
+        full = g.gen(rng, tier, vids=vids, remotes=False)
         while len(full['phases']) < 2:
-            full = g.gen(rng, tier, vids=vids)
+            full = g.gen(rng, tier, vids=vids, remotes=False)
         A = [op for op in full['phases'][0]]
         B = [op for op in full['phases'][1]] + ([op for op in full['phases'][2]] if len(full['phases']) > 2 else [])
         if vids or rng.random() < 0.3:
